@@ -696,6 +696,12 @@ func (f *partialCallable) Call(argv []reflect.Value) (reflect.Value, error) {
 	var err error
 	args := make([]reflect.Value, len(f.args))
 
+	// The given arguments are evaluated in a scope that belongs
+	// to this call: a variable they bind is not written into
+	// the scope the partial application was made in (which
+	// other calls of it share, possibly concurrently).
+	env := newEnvironment(f.env, 0)
+
 	for i, arg := range f.args {
 
 		var v reflect.Value
@@ -707,7 +713,7 @@ func (f *partialCallable) Call(argv []reflect.Value) (reflect.Value, error) {
 				argv = argv[1:]
 			}
 		default:
-			v, err = eval(arg, f.context, f.env)
+			v, err = eval(arg, f.context, env)
 			if err != nil {
 				return undefined, err
 			}
@@ -758,7 +764,13 @@ func (f *transformationCallable) Call(argv []reflect.Value) (reflect.Value, erro
 	owned := make(map[uintptr]bool)
 	collectMaps(obj, owned)
 
-	items, err := eval(f.pattern, obj, f.env)
+	// The expressions of the transformation are evaluated in a
+	// scope that belongs to this call: a variable they bind is
+	// not written into the scope the transformation was defined
+	// in (which other calls of it share, possibly concurrently).
+	env := newEnvironment(f.env, 0)
+
+	items, err := eval(f.pattern, obj, env)
 	if err != nil {
 		return undefined, err
 	}
@@ -772,12 +784,12 @@ func (f *transformationCallable) Call(argv []reflect.Value) (reflect.Value, erro
 			continue
 		}
 
-		if err := f.updateEntries(item); err != nil {
+		if err := f.updateEntries(item, env); err != nil {
 			return undefined, err
 		}
 
 		if f.deletes != nil {
-			if err := f.deleteEntries(item); err != nil {
+			if err := f.deleteEntries(item, env); err != nil {
 				return undefined, err
 			}
 		}
@@ -815,9 +827,9 @@ func (f *transformationCallable) validateArgs(argv []reflect.Value) error {
 	return nil
 }
 
-func (f *transformationCallable) updateEntries(item reflect.Value) error {
+func (f *transformationCallable) updateEntries(item reflect.Value, env *environment) error {
 
-	updates, err := eval(f.updates, item, f.env)
+	updates, err := eval(f.updates, item, env)
 	if err != nil || updates == undefined {
 		return err
 	}
@@ -855,9 +867,9 @@ func (f *transformationCallable) updateEntries(item reflect.Value) error {
 	return nil
 }
 
-func (f *transformationCallable) deleteEntries(item reflect.Value) error {
+func (f *transformationCallable) deleteEntries(item reflect.Value, env *environment) error {
 
-	deletes, err := eval(f.deletes, item, f.env)
+	deletes, err := eval(f.deletes, item, env)
 	if err != nil || deletes == undefined {
 		return err
 	}
